@@ -13,8 +13,9 @@ from .. import flow
 from ..cfg import cfg_of
 from ..model import UNKNOWN, AnchorError, Func, UnknownIdiom, short, unparse, walk_no_nested
 from .c08 import check_parse_qs_options
-from .c09_helpers import (ASGI_REQ, WSGI_REQ, ReachingDefs, SiteEscape, branch_facts, classes_of, effective_members,
-                          fact_value, is_public, node_of, norm_header_key, split_key, table_of, unguarded_keys)
+from .c09_helpers import (ASGI_REQ, HEADER_INPUTS, WSGI_REQ, ReachingDefs, SiteEscape, Unreadable, branch_facts, classes_of,
+                          effective_members, fact_value, factory_bindings, header_getter_kinds, is_public, kind_text, node_of,
+                          norm_header_key, split_key, table_of, unguarded_keys)
 from .common import is_self_attr, walk_self
 
 # ---------------------------------------------------------------------------
@@ -314,7 +315,8 @@ def r2_accessor_parity(run):
             runtime_witness='the same HTTP request served by the WSGI and the ASGI app: one stack raises %s from req.%s, the other does not' % (cl, sorted(set(d['members']))[0]))
     run.extra['c06_r2']['escape'] = {'conversion_sites': E.sites_seen, 'calls_resolved': E.calls_resolved, 'exemptions_used': E.exempt_used}
 
-    # ---- (a) consulted header keys and their precedence, (b) raised errors
+    # ---- (a) consulted header keys and their precedence, (b) raised errors, (d) fall-back results of plain header accessors
+    kind_diffs: Set[tuple] = set()
     for n in overridden:
         if n in R2_EXCLUDED:
             continue
@@ -323,13 +325,15 @@ def r2_accessor_parity(run):
             run.ok('%s.%s only forwards to the base implementation' % (ASGI_REQ, n), fa.loc(), n)
             continue
         if mw[n].kind == 'factory' or ma[n].kind == 'factory':
-            if not (mw[n].kind == 'factory' and ma[n].kind == 'factory'):
-                raise UnknownIdiom('%s is a factory-built property on one stack only' % n)
-            kw_ = _factory_key(p, mw[n], 'environ')
-            ka_ = _factory_key(p, ma[n], 'asgi-headers')
+            # factory-built on one or both stacks: the factory's getter is expanded with
+            # the call's constant arguments bound (hand-written siblings are read as they are)
+            kw_ = _accessor_key(p, mw[n], 'environ')
+            ka_ = _accessor_key(p, ma[n], 'asgi-headers')
+            afn, acons, awhere = _accessor_site(p, ma[n])
             run.check(kw_ is not None and kw_ == ka_, 'header property %s reads the same header on both stacks' % n,
-                      p.cls(ASGI_REQ).qual + '.' + n, ma[n].node if ma[n].node is not None else n, where=p.cls(ASGI_REQ).loc(ma[n].node),
+                      afn, acons if ma[n].kind == 'factory' else 'header(%s): %s vs %s' % (n, fw.qual, fa.qual), where=awhere,
                       witness=['WSGI %r' % kw_, 'ASGI %r' % ka_], runtime_witness='req.%s differs between the stacks for the same request' % n)
+            _result_kind_parity(run, p, n, mw[n], ma[n], kw_, True, kind_diffs)
             continue
         rw, ra = _consult_relation(p, fw), _consult_relation(p, fa)
         if (rw[0] or ra[0]) and rw[:2] != ra[:2] and (rw[2] or ra[2]):
@@ -348,6 +352,9 @@ def r2_accessor_parity(run):
             run.check(ew == ea, '%s: both stacks raise the same error classes with the same header-name arguments' % n, fa, 'raised-errors(%s): %s vs %s' % (n, fw.qual, fa.qual),
                       where=fa.loc(), witness=['WSGI %s' % sorted(ew), 'ASGI %s' % sorted(ea)],
                       runtime_witness='the same invalid header is answered with different errors on the two stacks')
+        # (d, restricted) two hand-written plain accessors of the same single header
+        if len(rw[0]) == 1 and rw[0] == ra[0] and not (rw[2] or ra[2]):
+            _result_kind_parity(run, p, n, mw[n], ma[n], next(iter(rw[0])), False, kind_diffs)
 
 
 def _delegates_to_super(f: Func, name: str) -> bool:
@@ -372,6 +379,75 @@ def _factory_key(p, m, kind) -> Optional[str]:
     if kind == 'environ':
         return norm_header_key('environ', v)
     return v.lower()
+
+
+def _accessor_key(p, m, kind) -> Optional[str]:
+    """The one header an accessor reads: the factory's constant name argument,
+    or the single constant key a hand-written getter consults."""
+    if m.kind == 'factory':
+        return _factory_key(p, m, kind)
+    keys, _rel, computed = _consult_relation(p, m.func)
+    if computed or len(keys) != 1:
+        raise UnknownIdiom('%s: the sibling is a factory-built header property, but this getter consults %s'
+                           % (m.func.qual, 'a computed key' if computed else '%d headers' % len(keys)))
+    return next(iter(keys))
+
+
+def _accessor_site(p, m):
+    """(function or qualified name, construct, where) to report an accessor at."""
+    if m.kind == 'factory' and m.node is not None:
+        c = p.cls(m.owner)
+        return c.qual + '.' + m.name, m.node, c.loc(m.node)
+    return m.func, m.func.node, m.func.loc()
+
+
+def _getter_of(p, m):
+    if m.kind == 'factory':
+        _fac, getter, env = factory_bindings(p, p.cls(m.owner), getattr(m.node, 'value', None))
+        return getter, env
+    if m.func is not None and m.func.is_property():
+        return m.func, {}
+    raise Unreadable('%s.%s is not a property' % (m.owner, m.name))
+
+
+def _result_kind_parity(run, p, n, mwn, man, header, strict: bool, reported: Set[tuple]):
+    """R2(d), restricted to what is exact: for a plain header accessor the
+    result is None, a constant or the header value, as a function of the
+    header being missing / present but blank / present and non-blank.  The
+    two siblings must agree on every one of the three input classes.
+
+    strict: one sibling is factory-built - an unreadable getter is an unknown
+    idiom.  Otherwise (two hand-written getters) the obligation exists only
+    when both are plain header accessors."""
+    try:
+        gw, envw = _getter_of(p, mwn)
+        ga, enva = _getter_of(p, man)
+        kw = header_getter_kinds(p, gw, envw)
+        ka = header_getter_kinds(p, ga, enva)
+    except Unreadable as e:
+        if strict:
+            raise UnknownIdiom('%s: factory-built header property whose getter (or its sibling) is not a plain header accessor: %s' % (n, e))
+        return
+    run.assume('R2(d) is decided only for plain single-header accessors (table lookup, decode, `or <constant>`, try/except KeyError): '
+               'result kind None / constant / header value on {header missing, blank, non-blank}')
+    diff = [c for c in HEADER_INPUTS if kw[c] != ka[c]]
+    if diff:
+        # one defect of a factory pair is reported once, at the first accessor built by it
+        ident = (gw.qual, ga.qual, tuple(kw[c] for c in HEADER_INPUTS), tuple(ka[c] for c in HEADER_INPUTS))
+        if ident in reported:
+            return
+        reported.add(ident)
+    afn, _cons, awhere = _accessor_site(p, man)
+    wit = ['header %s: WSGI %s -> %s; ASGI %s -> %s' % (c, gw.qual, kind_text(kw[c]), ga.qual, kind_text(ka[c])) for c in HEADER_INPUTS]
+    rt = None
+    if diff:
+        c = diff[0]
+        rt = 'a request whose %s header is %s: req.%s is %s on WSGI and %s on ASGI' % (
+            header or n, {'missing': 'missing', 'blank': 'present but blank', 'non-blank': 'present and non-blank'}[c], n,
+            kind_text(kw[c]), kind_text(ka[c]))
+    run.check(not diff, 'req.%s falls back to the same result (None / the same constant / the header value) on both stacks when the header is '
+                        'missing, blank or non-blank' % n, afn, 'result-kinds(%s): %s vs %s' % (n, gw.qual, ga.qual), where=awhere,
+              witness=wit, runtime_witness=rt)
 
 
 def _consults(p, f: Func):
@@ -1004,13 +1080,19 @@ def check(run):
     run.assume('R4 (dispatch parity) = C03 R1 + C04 R3 + C05 R3/R4: decided by those checks, not re-evaluated here')
     run.assume('server-mandated environ/scope keys (frozen table in sa/rules/c09_helpers.py) are present; E5 assumptions as in C09')
     run.assume('the deprecated WSGI-only option auto_parse_form_urlencoded is off (outside the quantifier of C06; its pre-try escape is C04 R6 / F10)')
-    run.assume('R2(d) fall-back constants: not decided (the fall-back idioms are too varied for an exact structural match)')
+    run.assume('R2(d) fall-back constants: decided only for header accessors on the input classes missing / blank / non-blank '
+               '(None vs constant vs header value); other fall-back idioms are too varied for an exact structural match')
     run.rule('R1', r1_override_completeness, 'no public ASGI request member reaches a base body that needs WSGI-only state', floor=60)
     run.rule('R2', r2_accessor_parity, 'accessor / constructor parity: escape sets, consulted headers, raised errors', floor=40)
     run.rule('R3', r3_constructor_parity, 'constructor parity: trailing slash, query-string options, content type', floor=10)
     from . import c03 as _c03
 
     run.rule('R4', _c03.r1_sibling_equal, 'dispatch parity: the two __call__s are event-language-equal over the middleware alphabet (shared with C03 R1)', floor=1)
+    from . import c05 as _c05
+    from . import c13 as _c13
+
+    run.rule('R10', _c05.r4_bodiless_typeless, 'both apps use the same bodiless/typeless status sets and branches (shared with C05 R4)', floor=26)
+    run.rule('R11', _c13.r1_siblings, 'the sync and async multipart parsers are statement-for-statement siblings (shared with C13 R1)', floor=3)
     run.rule('R9', r9_driver_path_decoding, 'both test drivers percent-decode the path identically (no plus-to-space)', floor=3)
     run.rule('R8', r8_ctor_definite_assignment, 'per-request attributes bound on every constructor path or immutable class default', floor=2)
     run.rule('R7', r7_render_sibling_stores, 'render siblings perform the same stores on the response', floor=2)
